@@ -23,4 +23,5 @@ let () =
   | "c06v" -> per_line M_c06.vline
   | "c06g" -> per_line M_c06.gline
   | "c15" -> per_line M_c15.line
+  | "cdir" -> per_line M_cdir.line
   | _ -> prerr_endline ("unknown mode " ^ mode); exit 2
